@@ -2,7 +2,7 @@
 import contracts.lexer as LEX
 import contracts.string_utils as SU
 import spec.text as ST
-from vf import engine_a, frontend
+from vf import engine_a, engine_b, frontend
 from vf.report import MachineryDefect, Run
 
 
@@ -15,6 +15,8 @@ def check(tier, seed):
     verdicts = engine_a.run(run, LEX.CONTRACTS + SU.CONTRACTS, ns, {}, engine_a.generic_instantiate(), jobs=jobs,
                             timeout_ms=20000 if tier == "thorough" else 10000)
     run.cov["parts"]["engine_a"] = verdicts
+    # --- A2. deductive: the predictive parser against the specification grammar (Engine B) --------------
+    engine_b.run(run, "C01")
     # --- B. validation of the functional specification against the declarative grammar -------------
     n, skipped, bad = frontend.validate_lexical_spec(4 if tier == "thorough" else 3, jobs=jobs)
     n2, sk2, bad2 = frontend.validate_lexical_spec(6 if tier == "thorough" else 5, alphabet=frontend.SMALL_ALPHABET, jobs=jobs)
@@ -66,5 +68,7 @@ def check(tier, seed):
     return run.finish("other",
                       "Engine A (weakest-precondition VCs from the real source of Lexer, z3): every method proved against the "
                       "functional lexical specification for all texts of all lengths; bounded: same contracts at run time over the "
-                      "corpus; parser half: see parts",
+                      "corpus; Engine B (automata extracted from the real source of Parser.parse_*): language equality with the specification "
+                      "grammar per method (P1), prediction (P2), progress (P3), raise sites (P4) for every flag valuation - acceptance of the "
+                      "parser follows by the LL meta-theorem (trusted); bounded: parser verdict == Earley verdict over the corpus",
                       checker_cmd="./check C01 --tier %s" % tier)
